@@ -1,7 +1,21 @@
 (* run_C06.ml — receive-pack ref update model *)
 let pairs s = if s = "_" then [] else List.map (fun kv -> match String.split_on_char '=' kv with
   | [k; v] -> (bytes_of_hex k, bytes_of_hex v) | _ -> failwith "pair") (String.split_on_char ',' s)
+(* rsfmt <unpack> <ref:msg,ref:-,...>   -> the packets _report_status writes, then what the client's parser makes of them
+   rsparse <packet>                     -> entry <ref> <msg|->  |  skip  |  bad  |  crash *)
+let hexb b = let h = hex_of_bytes b in if h = "" then "-" else h
+let rs_refs s = if s = "_" then [] else List.map (fun it -> match String.split_on_char ':' it with
+  | [r; m] -> (bytes_of_hex r, (if m = "-" then None else Some (bytes_of_hex m))) | _ -> failwith "ref") (String.split_on_char ',' s)
+let rs_entries l = if l = [] then "_" else String.concat "," (List.map (fun (r, m) -> hexb r ^ ":" ^ (match m with None -> "-" | Some x -> hexb x)) l)
 let handle = function
+  | ["rsfmt"; u; refs] ->
+      let pk = report (bytes_of_hex u) (rs_refs refs) in
+      String.concat "," (List.map hexb pk) ^ " " ^
+      (match parse_report pk with None -> "exc" | Some (up, l) -> hexb up ^ "|" ^ rs_entries l)
+  | ["rsparse"; p] ->
+      (match parse_status (bytes_of_hex p) with
+       | PEntry (r, m) -> "entry " ^ hexb r ^ " " ^ (match m with None -> "-" | Some x -> hexb x)
+       | PSkip -> "skip" | PBad -> "bad" | PCrash -> "crash")
   | ["push"; atomic; objs; refs; cmds] ->
       let o = if objs = "_" then [] else List.map bytes_of_hex (String.split_on_char ',' objs) in
       let cs = if cmds = "_" then [] else List.map (fun c -> match String.split_on_char ':' c with
